@@ -302,6 +302,11 @@ func equalNums(lhsV, rhsV reflect.Value) bool {
 // numEqualsNumeral returns true when the string s is a numeral denoting the
 // numeric value numV.
 func numEqualsNumeral(numV reflect.Value, s string) bool {
+	if !isDecimalNumeral(s) {
+		// "inf", "0x1p4", "1_0" and the like are accepted by strconv but do not
+		// denote a number the way a script spells one
+		return false
+	}
 	strV := reflect.ValueOf(s)
 	// a string formatted as an int is compared as an int
 	if i, err := tryToInt64(strV); err == nil {
@@ -328,6 +333,44 @@ func numEqualsNumeral(numV reflect.Value, s string) bool {
 	}
 	i, accuracy := bf.Int64()
 	return accuracy == big.Exact && i == numV.Int()
+}
+
+// isDecimalNumeral returns true for [+-]digits[.digits][e[+-]digits]
+func isDecimalNumeral(s string) bool {
+	i := 0
+	if i < len(s) && (s[i] == '+' || s[i] == '-') {
+		i++
+	}
+	digits := 0
+	for i < len(s) && s[i] >= '0' && s[i] <= '9' {
+		i++
+		digits++
+	}
+	if i < len(s) && s[i] == '.' {
+		i++
+		for i < len(s) && s[i] >= '0' && s[i] <= '9' {
+			i++
+			digits++
+		}
+	}
+	if digits == 0 {
+		return false
+	}
+	if i < len(s) && (s[i] == 'e' || s[i] == 'E') {
+		i++
+		if i < len(s) && (s[i] == '+' || s[i] == '-') {
+			i++
+		}
+		exp := 0
+		for i < len(s) && s[i] >= '0' && s[i] <= '9' {
+			i++
+			exp++
+		}
+		if exp == 0 {
+			return false
+		}
+	}
+	return i == len(s)
 }
 
 // isHashable returns true if the value can be used as a map key without
